@@ -306,7 +306,15 @@ func evalC17(op string, args []string) string {
 	if op == "gen" && !c17IsASCIINames(dict, opts) {
 		return "BAD-CASE"
 	}
-	out, err := opts.generator().Generate(dict)
+	// history: the Generator value has already produced code for ANOTHER dictionary (with a vendor, values,
+	// every helper family); nothing of that may show in this run
+	gen0 := opts.generator()
+	func() {
+		defer func() { recover() }()
+		gen0.Generate(dsParseDict("-:5072696f72:200:1:-:-:-:-,-:5072696f722d496e74:201:5:-:-:1:-,v0:56656e2d41:1:1:-:-:-:-,v0:56656e2d42:2:5:-:2:-:-",
+			"-:5072696f722d496e74:4f6e65:1,v0:56656e2d42:54776f:2", "v0:5072696f7256:4242:-:-"))
+	}()
+	out, err := gen0.Generate(dict)
 	// a second run on the SAME *Dictionary value: Generate must not have modified its argument
 	outSame, errSame := opts.generator().Generate(dict)
 	sameOK := (errSame != nil) == (err != nil) && (err != nil || bytes.Equal(out, outSame))
